@@ -236,6 +236,47 @@ def write_replay(prop_id, tier, seed, viol, tag=""):
     return os.path.relpath(path, ROOT)
 
 
+def run_fuzz(prop_id, tier, seed, seconds, violations, procs=8):
+    """Run cvh.fuzz in `procs` parallel processes; returns merged statistics, appends violations."""
+    import tempfile
+    deps = os.path.join(ROOT, ".deps")
+    if not os.path.isdir(os.path.join(deps, "atheris")):
+        return {"skipped": "atheris not installed (.deps missing: run setup.sh)"}
+    tmp = tempfile.mkdtemp(prefix=f"cvh-fuzz-{prop_id}-")
+    env = dict(os.environ, PYTHONPATH=ROOT + os.pathsep + os.environ.get("PYTHONPATH", ""))
+    ps = []
+    for i in range(procs):
+        stats = os.path.join(tmp, f"stats{i}.json")
+        cmd = [sys.executable, "-m", "cvh.fuzz", prop_id, "--seconds", str(seconds), "--stats", stats, "--seed", str(seed * 100 + i + 1),
+               "--tier", tier, "--corpus", os.path.join(tmp, f"corpus{i}")]
+        ps.append((subprocess.Popen(cmd, stdout=subprocess.PIPE, stderr=subprocess.DEVNULL, text=True, env=env, cwd=ROOT), stats))
+    merged = {"engine": "atheris (libFuzzer) driving the module's Hypothesis strategy via fuzz_one_input", "processes": procs,
+              "seconds_each": seconds, "evaluations": 0, "distinct_nontrivial": 0, "excluded_known": 0, "crashes": 0}
+    for proc, stats in ps:
+        try:
+            out, _ = proc.communicate(timeout=seconds + 600)
+        except subprocess.TimeoutExpired:
+            proc.kill()
+            out = ""
+        for line in (out or "").splitlines():
+            if line.startswith("VIOLATION"):
+                m = re.match(r"VIOLATION property=\S+ replay=(\S+)\s+# (.*)", line)
+                if m:
+                    violations.append((m.group(2), m.group(1)))
+        if proc.returncode not in (0, 1):
+            merged["crashes"] += 1
+        try:
+            with open(stats) as fh:
+                st = json.load(fh)
+            for k in ("evaluations", "distinct_nontrivial", "excluded_known"):
+                merged[k] += st.get(k, 0)
+        except Exception:
+            pass
+    import shutil
+    shutil.rmtree(tmp, ignore_errors=True)
+    return merged
+
+
 # ----------------------------------------------------------------------------- main
 def main(argv=None):
     ap = argparse.ArgumentParser()
@@ -357,6 +398,13 @@ def _main(a, prop_id, seed, t0):
         path = write_replay(prop_id, a.tier, seed, v)
         violations.append((s, path))
 
+    # 4b. coverage-guided campaign (thorough tier of the properties that declare FUZZ_SECONDS): the same Hypothesis
+    #     property driven by Atheris/libFuzzer with branch coverage of cola/ as feedback, 8 parallel processes
+    fuzz_cov = None
+    fuzz_secs = int(os.environ.get("VERIF_FUZZ_SECONDS", getattr(mod, "FUZZ_SECONDS", 0) if a.tier == "thorough" else 0))
+    if fuzz_secs > 0 and not a.survey and not a.n:
+        fuzz_cov = run_fuzz(prop_id, a.tier, seed, fuzz_secs, violations)
+
     if a.survey:
         surv = {}
         for r in results:
@@ -395,6 +443,9 @@ def _main(a, prop_id, seed, t0):
         "avoided_constructs": sorted({k for f in open_findings for k in f.get("avoid", [])}),
     }
     coverage.update(extra)
+    if fuzz_cov is not None:
+        coverage["coverage_guided"] = fuzz_cov
+        coverage["evaluations"] += fuzz_cov.get("evaluations", 0)
     evidence = {
         "property_id": prop_id, "tier": a.tier, "seed": seed, "level": getattr(mod, "LEVEL", "exploration"),
         "coverage": coverage, "assumptions": list(getattr(mod, "ASSUMPTIONS", [])),
